@@ -777,6 +777,33 @@ impl<'a> Ev<'a> {
                 _ => Err("tuple pattern on non-tuple".into()),
             },
             Pat::Wild(_) => Ok(()),
+            Pat::Reference(r) => self.bind_pat(&r.pat, strip_ref(v)),
+            // `let Self { re, eps, .. } = self;` / `let Dual { re: a, .. } = x;` -- field values by name; through a
+            // reference the bindings are references to the fields (default binding modes)
+            Pat::Struct(ps) => {
+                let by_ref = is_ref(&v);
+                match strip_ref(v) {
+                    Val::Struct(_, fs) => {
+                        for fp in &ps.fields {
+                            let name = match &fp.member {
+                                syn::Member::Named(id) => id.to_string(),
+                                syn::Member::Unnamed(_) => return Err("tuple-struct pattern".into()),
+                            };
+                            let fv = fs.iter().find(|(k, _)| *k == name).map(|(_, v)| v.clone());
+                            match fv {
+                                Some(fv) => {
+                                    let fv = if by_ref { Val::Ref(Box::new(strip_ref(fv))) } else { fv };
+                                    self.bind_pat(&fp.pat, fv)?;
+                                }
+                                // a field the model does not carry (PhantomData): only `_` / an unused name may bind it
+                                None => {}
+                            }
+                        }
+                        Ok(())
+                    }
+                    _ => Err("struct pattern on non-struct".into()),
+                }
+            }
             _ => Err("unsupported pattern".into()),
         }
     }
@@ -943,36 +970,57 @@ impl<'a> Ev<'a> {
                 self.merge(&c, a, b)
             }
             Expr::Match(m) => {
+                // scrutinee: an integer, a bool, or a tuple of those; patterns: literals, `_`, tuples, or-patterns; guards allowed.
+                // The match is exhaustive (rustc checked it), so the last arm is the default of the if-chain.
                 let scrut = strip_ref(self.eval(&m.expr)?);
-                let s = match scrut {
-                    Val::Int(s) => s,
-                    _ => return Err("match on non-integer".into()),
-                };
-                // arms: integer literals and a final wildcard
-                let mut arms: Vec<(Option<String>, Val)> = vec![];
+                fn pat_cond(scrut: &Val, pat: &Pat) -> R<String> {
+                    match (pat, scrut) {
+                        (Pat::Wild(_), _) => Ok("true".into()),
+                        (Pat::Paren(p), _) => pat_cond(scrut, &p.pat),
+                        (Pat::Or(o), _) => {
+                            let cs: R<Vec<String>> = o.cases.iter().map(|c| pat_cond(scrut, c)).collect();
+                            Ok(format!("({})", cs?.join(" || ")))
+                        }
+                        (Pat::Lit(l), Val::Int(s)) => match &l.lit {
+                            syn::Lit::Int(i) => Ok(format!("({s} == {})", i.base10_digits())),
+                            _ => Err("match literal".into()),
+                        },
+                        (Pat::Lit(l), Val::Bool(s)) => match &l.lit {
+                            syn::Lit::Bool(b) => Ok(if b.value { format!("({s})") } else { format!("(!({s}))") }),
+                            _ => Err("match literal".into()),
+                        },
+                        (Pat::Tuple(t), Val::Tuple(vs)) if t.elems.len() == vs.len() => {
+                            let mut cs = vec![];
+                            for (p, v) in t.elems.iter().zip(vs.iter()) {
+                                let v = strip_ref(v.clone());
+                                cs.push(pat_cond(&v, p)?);
+                            }
+                            Ok(format!("({})", cs.join(" && ")))
+                        }
+                        _ => Err("match pattern".into()),
+                    }
+                }
+                match &scrut {
+                    Val::Int(_) | Val::Bool(_) | Val::Tuple(_) => {}
+                    _ => return Err("match on unsupported value".into()),
+                }
+                let mut arms: Vec<(String, Val)> = vec![];
                 self.depth_branch += 1;
                 for arm in &m.arms {
-                    if arm.guard.is_some() {
-                        return Err("match guard".into());
+                    let mut c = pat_cond(&scrut, &arm.pat)?;
+                    if let Some((_, g)) = &arm.guard {
+                        match strip_ref(self.eval(g)?) {
+                            Val::Bool(gs) => c = format!("({c} && {gs})"),
+                            _ => return Err("match guard is not a bool".into()),
+                        }
                     }
-                    let pat = match &arm.pat {
-                        Pat::Lit(l) => match &l.lit {
-                            syn::Lit::Int(i) => Some(i.base10_digits().to_string()),
-                            _ => return Err("match literal".into()),
-                        },
-                        Pat::Wild(_) => None,
-                        _ => return Err("match pattern".into()),
-                    };
                     let v = self.eval(&arm.body)?;
-                    arms.push((pat, v));
+                    arms.push((c, v));
                 }
                 self.depth_branch -= 1;
-                let (lastp, mut acc) = arms.pop().ok_or("empty match")?;
-                if lastp.is_some() {
-                    return Err("match without wildcard".into());
-                }
-                while let Some((p, v)) = arms.pop() {
-                    let c = self.fresh(format!("({s} == {})", p.unwrap()), "bool");
+                let (_, mut acc) = arms.pop().ok_or("empty match")?;
+                while let Some((c, v)) = arms.pop() {
+                    let c = self.fresh(c, "bool");
                     acc = self.merge(&c, v, acc)?;
                 }
                 Ok(acc)
